@@ -1,7 +1,7 @@
 //! Engine for decoder-history properties (C02, C05-C10, C18): bounded-exhaustive core +
 //! random histories, a per-property verdict function, shrinking and replay.
 
-use crate::drive_dec::{BomMode, DecDriver, DecHistory, DecOutcome, FaultKind, Res, Sink, CAP_QUERY};
+use crate::drive_dec::{BomMode, DecDriver, DecHistory, DecOutcome, FaultKind, Res, Sink, CAP_QUERY_EXACT};
 use crate::fw::{self, par_run, Ctx, Stats, Violation};
 use crate::hist::{self, Profile};
 use crate::model_dec::{algo_for, Algo};
@@ -716,7 +716,8 @@ pub fn verdict_c18(h: &DecHistory, sc: &mut Scratch, st: &mut Stats, enumerated:
 
 pub fn sample_query_caps(sink: Sink) -> Vec<Vec<usize>> {
     let m = sink.min_cap();
-    vec![vec![CAP_QUERY], vec![m, CAP_QUERY], vec![CAP_QUERY, m], vec![m + 1, m, CAP_QUERY], vec![8, CAP_QUERY, CAP_QUERY]]
+    let q = CAP_QUERY_EXACT;
+    vec![vec![q], vec![m, q], vec![q, m], vec![m + 1, m, q], vec![8, q, q]]
 }
 
 pub fn _unused() -> serde_json::Value {
